@@ -196,7 +196,10 @@ def obs_C03(g, out):
     eq = g.eq
     h = 1e-5
     fpol0, pres0 = analytic_profiles(g.cfg)
-    psign = g.cfg.get("psi_sign", 1.0) * g.cfg.get("psi_scale", 1.0)      # file psi / psign = psi of the unsigned, unscaled family
+    from harness import oracles as _O
+
+    psign = _O.psi_factor(g.cfg)      # file psi / psign = psi of the unsigned, unscaled family (incl. reverse_current, psi_divide_twopi)
+    btsign = _O.bt_sign(g.cfg)        # reverse_Bt flips the sign of fpol
     fpol = pres = None
     if g.cfg.get("family", "tokamak") == "tokamak":
         # the input profiles are given on the psi range of the psi1D array only; outside it the
@@ -207,7 +210,7 @@ def obs_C03(g, out):
                                  psi1d_rmax=g.cfg.get("psi1d_rmax"))[3]
         lo, hi = float(np.min(psi1d)), float(np.max(psi1d))
         if fpol0 is not None:
-            fpol = lambda u: fpol0(np.clip(u, lo, hi))  # noqa: E731
+            fpol = lambda u: btsign * fpol0(np.clip(u, lo, hi))  # noqa: E731
         if pres0 is not None:
             pres = lambda u: pres0(np.clip(u, lo, hi))  # noqa: E731
         if g.cfg.get("options", {}).get("extrapolate_profiles"):
@@ -316,13 +319,13 @@ def cell_arcs(g):
         psi1d = E.tokamak_arrays(g.cfg["geometry"], g.cfg.get("nR", 65), g.cfg.get("nZ", 65), mirror=g.cfg.get("mirror", False),
                                  psi1d_rmax=g.cfg.get("psi1d_rmax"))[3]
         lo, hi = float(np.min(psi1d)), float(np.max(psi1d))
-        psign = g.cfg.get("psi_sign", 1.0) * g.cfg.get("psi_scale", 1.0)
+        psign = oracles.psi_factor(g.cfg)
 
         def integrand(R, Z):
             if fpol0 is None:
                 return 0.0
             gR, gZ = grad(R, Z)
-            f = float(fpol0(np.clip(psi_f(R, Z) / psign, lo, hi)))
+            f = oracles.bt_sign(g.cfg) * float(fpol0(np.clip(psi_f(R, Z) / psign, lo, hi)))
             return f / (R * np.hypot(gR, gZ))       # Bt/(R |Bp|) = (f/R) / (R * |grad psi|/R)
     else:
         def grad(R, Z):
